@@ -94,42 +94,44 @@ def _np(p):
     return os.path.normpath(p) if p.startswith(b"/") else p
 
 
-def script_ops(cmds):
+def script_ops(cmds, origs=frozenset()):
     out = []
+    mt = lambda x: ops.mask_temp_of(x, origs)
     for c in cmds:
         c = [c[0]] + [_np(x) for x in c[1:]]
         if c[0] == b"rm":
-            out.append(("rm", ops.mask_temp(c[1]), b""))
+            out.append(("rm", mt(c[1]), b""))
         elif c[0] == b"mv":
-            out.append(("mv", ops.mask_temp(c[1]), ops.mask_temp(c[2])))
+            out.append(("mv", mt(c[1]), mt(c[2])))
         elif c[0] == b"ln" and c[1] == b"-s":
-            out.append(("ln-s", c[2], ops.mask_temp(c[3])))
+            out.append(("ln-s", c[2], mt(c[3])))
         elif c[0] == b"ln":
-            out.append(("ln", c[1], ops.mask_temp(c[2])))
+            out.append(("ln", c[1], mt(c[2])))
         elif c[0] == b"cp" and c[1].startswith(b"--reflink"):
-            out.append(("reflink", c[2], ops.mask_temp(c[3])))
+            out.append(("reflink", c[2], mt(c[3])))
         elif c[0] == b"cp":
-            out.append(("cp", c[1], ops.mask_temp(c[2])))
+            out.append(("cp", c[1], mt(c[2])))
         else:
             out.append(("?", b" ".join(c), b""))
     return out
 
 
-def trace_ops(trace, op):
+def trace_ops(trace, op, origs=frozenset()):
     out = []
+    mt = lambda x: ops.mask_temp_of(x, origs)
     for e in trace.mutating():
         if e.ret < 0:
             continue
         if e.kind == "unlink":
-            out.append(("rm", ops.mask_temp(e.path), b""))
+            out.append(("rm", mt(e.path), b""))
         elif e.kind == "rename":
-            out.append(("mv", ops.mask_temp(e.path), ops.mask_temp(e.path2)))
+            out.append(("mv", mt(e.path), mt(e.path2)))
         elif e.kind == "link":
-            out.append(("ln", e.path2, ops.mask_temp(e.path)))
+            out.append(("ln", e.path2, mt(e.path)))
         elif e.kind == "symlink":
-            out.append(("ln-s", e.path2, ops.mask_temp(e.path)))
+            out.append(("ln-s", e.path2, mt(e.path)))
         elif e.kind == "ficlone":
-            out.append(("reflink", e.path2, ops.mask_temp(e.path)))
+            out.append(("reflink", e.path2, mt(e.path)))
     return out
 
 
@@ -170,6 +172,7 @@ def run_case(case):
             viol.append({"clause": clause, "detail": "%s | op=%s dargs=%s gflags=%s%s" % (
                 detail, op, case["dargs"], case["gflags"], (" | stderr=" + res.err.decode("utf-8", "replace")[-400:]) if res is not None else "")})
 
+        origs = frozenset(os.path.join(rd.wb(), p_) for p_ in inventory(rd.world))
         scripts = []
         dry = None
         for nthreads in (1, 2, 16):
@@ -180,7 +183,7 @@ def run_case(case):
                 V("dry-run-succeeds", "dry run failed rc=%s" % d.rc, d)
                 break
             cmds, err = tokenise(d.out)
-            scripts.append(script_ops(cmds))
+            scripts.append(script_ops(cmds, origs))
             if dry is None:
                 dry = d
         if len(scripts) == 3 and not (scripts[0] == scripts[1] == scripts[2]):
@@ -212,7 +215,7 @@ def run_case(case):
                 V("bash-equals-real", "tree after `bash script` differs from tree after the real run at %s: bash %s real %s" % (
                     [b2s(p) for p in diff][:5], [i1.get(p) for p in diff][:3], [i2.get(p) for p in diff][:3]))
             # (2) operations
-            tops = trace_ops(real.trace, op)
+            tops = trace_ops(real.trace, op, origs)
             want = sorted(sops)
             got = sorted(tops)
             if op == "move":
@@ -227,11 +230,9 @@ def run_case(case):
                 V("script-equals-real-ops", "operations differ: only in script %s ; only in real run %s" % (
                     [o for o in want if o not in got][:4], [o for o in got if o not in want][:4]))
             # (3) summaries
-            import re
-            m1 = re.search(rb"Would process (\d+) files and reclaim (.*) space", dry.err)
-            m2 = re.search(rb"Processed (\d+) files and reclaimed (.*) space", real.err)
-            if not m1 or not m2 or m1.groups() != m2.groups():
-                V("summary-equal", "dry run says %s, real run says %s" % (m1.groups() if m1 else None, m2.groups() if m2 else None))
+            s1, s2 = ops.summary(dry), ops.summary(real)
+            if (s1 is not None or s2 is not None) and s1 != s2:
+                V("summary-equal", "dry run says %s, real run says %s" % (s1, s2))
             # (4) groups in report order
             rep = report.parse_any(g.out)
             gidx = {}
